@@ -17,7 +17,10 @@ using namespace kit;
 
 namespace
 {
-    enum St { UNLINKED, LINKED, POISONED, ORPHAN };
+    enum St { UNLINKED, LINKED, POISONED, ORPHAN, STALE };
+    // STALE: a C node that is in no list but whose links hold anything - never initialised (simulated memory fill), or left
+    // behind when its list head was re-initialised wholesale. The header's contract: dlist_init "should be used before all
+    // operations with head except dlist_add*", so the add family must work on such a node; everything else needs dlist_init first.
 
     std::string seq(const std::vector<int> &v)
     {
@@ -38,9 +41,9 @@ namespace
 
     // ops: [k, item, list, target]
     enum { C_ADD_NEXT, C_ADD_PREV, C_ADD_AFTER, C_ADD_BEFORE, C_DEL, C_DEL_INIT, C_MOVE, C_MOVE_TAIL, C_MOVE_AFTER, C_MOVE_BEFORE,
-           C_MOVE_SORTED, C_INSTEAD, C_DEATH, C_TAKEOVER, C_SAFE_SWEEP, C_SAFE_ENTRY_SWEEP, C_N };
+           C_MOVE_SORTED, C_INSTEAD, C_DEATH, C_TAKEOVER, C_SAFE_SWEEP, C_SAFE_ENTRY_SWEEP, C_HEAD_REINIT, C_NODE_INIT, C_N };
     const char *C_NAME[] = {"add_next", "add_prev", "add_after", "add_before", "del", "del_init", "move", "move_tail", "move_after", "move_before",
-                            "move_sorted", "insert_instead", "death", "head_takeover", "for_each_safe+del", "for_each_entry_safe+del"};
+                            "move_sorted", "insert_instead", "death", "head_takeover", "for_each_safe+del", "for_each_entry_safe+del", "head_reinit", "node_init"};
 
     struct CDlistWorld : World
     {
@@ -50,7 +53,7 @@ namespace
         {
             Plan p;
             int ni = (int)r.range(1, tier == THOROUGH ? 12 : 8), nl = (int)r.range(1, 4);
-            p.cfg = {ni, nl};
+            p.cfg = {ni, nl, (int64_t)r.below(3)};
             int n = (int)r.range(4, tier == THOROUGH ? 120 : 50);
             for (int i = 0; i < n; i++)
             {
@@ -76,12 +79,23 @@ namespace
             std::vector<St> st(ni, UNLINKED);
             std::vector<int> where(ni, -1);
             int serial = 0;
+            int fillsel = (int)mod(p.c(2), 3);
             auto fresh = [&](int i) {
                 it[i].reset(new CItem());
                 it[i]->id = i;
                 it[i]->key = (i * 7 + serial++ * 3) % 10;
-                dlist_init(&it[i]->lnk);
-                st[i] = UNLINKED;
+                if ((serial + fillsel) % 3 == 0)
+                {
+                    // fresh memory is not zeroed and not initialised: seed-chosen fill
+                    memset(&it[i]->lnk, fillsel == 0 ? 0x00 : fillsel == 1 ? 0xFF : 0xA5, sizeof it[i]->lnk);
+                    st[i] = STALE;
+                    probe("uninitialised_node");
+                }
+                else
+                {
+                    dlist_init(&it[i]->lnk);
+                    st[i] = UNLINKED;
+                }
                 where[i] = -1;
             };
             for (int i = 0; i < ni; i++) fresh(i);
@@ -173,8 +187,10 @@ namespace
                 case C_MOVE_SORTED:
                 case C_INSTEAD:
                     // the add family takes unlinked nodes only; a dlist_del'ed (poisoned) node is re-initialised first
+                    // the add family takes nodes that are in no list, in whatever state their links are (self-linked, poisoned by
+                    // dlist_del, never initialised, left over from a re-initialised list): it only writes them
                     if (st[i] == LINKED) { done = false; break; }
-                    if (st[i] == POISONED) { dlist_init(n); st[i] = UNLINKED; }
+                    if (st[i] == POISONED || st[i] == STALE) probe("add_of_uninitialised_or_poisoned_node");
                     if (k == C_ADD_NEXT) { dlist_add_next(n, h); m[l].insert(m[l].begin(), i); where[i] = l; st[i] = LINKED; }
                     else if (k == C_ADD_PREV) { dlist_add_prev(n, h); m[l].push_back(i); where[i] = l; st[i] = LINKED; }
                     else if (k == C_MOVE_SORTED)
@@ -194,6 +210,7 @@ namespace
                         {
                             // replacing a node that is itself unlinked (self-linked): both end up unlinked
                             dlist_insert_instead(n, &it[t]->lnk);
+                            st[i] = UNLINKED;
                             probe("insert_instead_of_unlinked");
                             break;
                         }
@@ -218,7 +235,7 @@ namespace
                     st[i] = POISONED;
                     break;
                 case C_DEL_INIT:
-                    if (st[i] == POISONED) { done = false; break; }
+                    if (st[i] == POISONED || st[i] == STALE) { done = false; break; }
                     if (st[i] == UNLINKED) probe("second_removal");
                     dlist_del_init(n);
                     unlink_model(i);
@@ -226,7 +243,7 @@ namespace
                     break;
                 case C_MOVE:
                 case C_MOVE_TAIL:
-                    if (st[i] == POISONED) { done = false; break; }
+                    if (st[i] == POISONED || st[i] == STALE) { done = false; break; }
                     if (st[i] == LINKED && m[where[i]].size() == 1) probe("single_element_move");
                     if (k == C_MOVE) dlist_move(n, h);
                     else dlist_move_tail(n, h);
@@ -240,7 +257,7 @@ namespace
                 case C_MOVE_AFTER:
                 case C_MOVE_BEFORE:
                 {
-                    if (st[i] == POISONED) { done = false; break; }
+                    if (st[i] == POISONED || st[i] == STALE) { done = false; break; }
                     if (t != i && st[t] != LINKED) { done = false; break; }
                     if (t == i)
                     {
@@ -281,6 +298,19 @@ namespace
                     probe("head_takeover");
                     break;
                 }
+                case C_HEAD_REINIT:
+                    // the list is reset wholesale (dlist_init on the head): its nodes are in no list any more, their links are stale
+                    if (!m[l].empty()) { fault("list_reset_with_nodes"); probe("head_reinit_nonempty"); }
+                    dlist_init(h);
+                    for (int x : m[l]) { st[x] = STALE; where[x] = -1; }
+                    m[l].clear();
+                    break;
+                case C_NODE_INIT:
+                    // a node that is in no list may be (re-)initialised at any time
+                    if (st[i] == LINKED) { done = false; break; }
+                    dlist_init(n);
+                    st[i] = UNLINKED;
+                    break;
                 case C_SAFE_SWEEP:
                 case C_SAFE_ENTRY_SWEEP:
                 {
